@@ -1,12 +1,12 @@
 SPECIFICATION Spec
-CONSTANTS MaxReconnects = 3
-          MaxCuts = 2
-          MaxProbes = 2
+CONSTANTS MaxReconnects = 2
+          MaxCuts = 1
+          MaxProbes = 1
           MaxPends = 1
-          MaxRaces = 2
+          MaxRaces = 1
           MaxTicks = 1
-          Firsts = {"reconnect", "close"}
-          Js = {0, 1, 2, 3, 4, 5, 6, 7, 8, 9, 10, 11, 12, 14, 20}
+          Firsts = {"reconnect"}
+          Js = {0, 1, 2, 3, 4, 5, 6, 7, 8, 9, 10, 11, 12, 14}
 INVARIANT TypeOK
 INVARIANT CloseOncePerConnection
 INVARIANT OldTransportsClosed
